@@ -491,6 +491,35 @@ func runCase(c c12Case) (f *vh.Failure) {
 			if n := conn.VerifChannelCount(); n != 1 {
 				fail("C12/channel-registration", "after closing the logical channels %d channels are registered", n)
 			}
+			// the closed channels do not exist any more: a packet for each of them is a
+			// connection error (the most recently used one first)
+			for conn.VerifConnErr() != nil {
+			}
+			var closedIDs []int
+			for _, ch := range chans[1:] {
+				closedIDs = append(closedIDs, ch.VerifID())
+			}
+			sort.Sort(sort.Reverse(sort.IntSlice(closedIDs)))
+			if len(closedIDs) > 4 {
+				closedIDs = closedIDs[:4]
+			}
+			for k := 0; k < 2; k++ {
+				for _, id := range closedIDs {
+					pipe.Feed(rc.Packet{Type: rc.BufResponse, Channel: uint16(id), Status: rc.StatEOM, Body: []byte{rc.TokDone, 0, 0, 0, 0, 0, 0, 0, 0}}.Bytes())
+				}
+			}
+			got := 0
+			deadline := time.Now().Add(3 * time.Second)
+			for got < 2*len(closedIDs) && time.Now().Before(deadline) {
+				if e := conn.VerifConnErr(); e != nil {
+					got++
+				} else {
+					time.Sleep(100 * time.Microsecond)
+				}
+			}
+			if got != 2*len(closedIDs) {
+				fail("C12/packet-for-closed-channel-not-reported", "%d packets for the closed channels %v produced %d connection errors", 2*len(closedIDs), closedIDs, got)
+			}
 			if err := conn.Close(); err != nil {
 				fail("C12/close", "Conn.Close: %v", err)
 			}
@@ -599,3 +628,31 @@ func TestChannelsOverLoopback(t *testing.T) {
 }
 
 var _ = io.EOF
+
+// a logical channel that sends more than 256 packets in its life: the packet number wraps
+// from 255 to 0
+func TestPacketNumberWrap(t *testing.T) {
+	gen := func(rt *rapid.T) c12Case {
+		c := c12Case{Channels: 2, Creators: 1, Rounds: rapid.IntRange(1, 3).Draw(rt, "rounds"), Procs: rapid.SampledFrom([]int{1, 4}).Draw(rt, "procs")}
+		for i := 0; i < c.Channels; i++ {
+			var rs []resp
+			for r := 0; r < c.Rounds; r++ {
+				v := int32(i*1000 + r)
+				rs = append(rs, resp{Pkgs: []rc.P{{RetStat: &v}, {Done: &rc.Done{Tok: rc.TokDone}}}})
+			}
+			c.Resp = append(c.Resp, rs)
+		}
+		// about 260 / rounds packets per request on the logical channel
+		total := rapid.IntRange(258, 300).Draw(rt, "packets")
+		c.ReqPad = []int{10, total / c.Rounds * 504}
+		c.Order = []int{0, 1}
+		return c
+	}
+	vh.Check(t, "TestPacketNumberWrap", vh.N(6, 100), gen, func(c c12Case) *vh.Failure {
+		f := runCase(c)
+		if f == nil {
+			vh.Label("packet-number-wraps")
+		}
+		return f
+	})
+}
